@@ -33,6 +33,7 @@ def check_case(case, acc):
     ests0, gts0 = list(ests), list(gts)
     snap_e, snap_g = M.snapshot(ests), M.snapshot(gts)
     fpv = case["task"].startswith("fp_validation")
+    acc.exec(M.warm_up(case, ests, gts, tf))
     acc.exec()
     try:
         R = M.call(case, ests, gts, tf)
